@@ -121,6 +121,12 @@ MUTANTS = [
      "            M += Mterm\n            RHS += RHSterm",
      "            M += Mterm\n            RHSterm += RHS\n            RHS = RHSterm",
      ["C15"], "caught"),
+    # assembly order depends on the per-process string hash: same bytes within one
+    # interpreter, other rounding in the next one
+    ("terms-summed-in-hash-order", P,
+     "    for term in eqnterms:\n        if isinstance(term, tuple):",
+     "    for term in sorted(eqnterms, key=lambda t: hash(repr(type(t)) + str(getattr(t, 'nnz', 1)) + str(getattr(t, 'ndim', 0)))):\n        if isinstance(term, tuple):",
+     ["C15"], "caught"),
     # a builder that lazily refreshes its argument: the next builder call with the
     # same visible inputs returns something else
     ("gradient-applies-bcs-on-dirty-input", "pyfvtool/calculus.py",
